@@ -37,6 +37,49 @@ func timerFieldsRead(blocks []*ssa.BasicBlock) []string {
 			}
 		}
 	}
+	// values computed before the branch and used inside it (a read hoisted into a temporary)
+	inRegion := map[*ssa.BasicBlock]bool{}
+	for _, b := range blocks {
+		inRegion[b] = true
+	}
+	var trace func(v ssa.Value, d int)
+	trace = func(v ssa.Value, d int) {
+		if d > 6 || v == nil {
+			return
+		}
+		if in, ok := v.(ssa.Instruction); ok && in.Block() != nil && inRegion[in.Block()] {
+			return // counted above
+		}
+		switch x := v.(type) {
+		case *ssa.FieldAddr, *ssa.Field:
+			if t, f, _, ok := fieldRef(v); ok && t == "Timer" && !skip[f] {
+				set[f] = true
+			}
+		case *ssa.UnOp:
+			trace(x.X, d+1)
+		case *ssa.Convert:
+			trace(x.X, d+1)
+		case *ssa.ChangeType:
+			trace(x.X, d+1)
+		case *ssa.MakeInterface:
+			trace(x.X, d+1)
+		case *ssa.BinOp:
+			trace(x.X, d+1)
+			trace(x.Y, d+1)
+		}
+	}
+	for _, b := range blocks {
+		for _, in := range b.Instrs {
+			if _, isPhi := in.(*ssa.Phi); isPhi {
+				continue
+			}
+			for _, op := range in.Operands(nil) {
+				if *op != nil {
+					trace(*op, 0)
+				}
+			}
+		}
+	}
 	var out []string
 	for k := range set {
 		out = append(out, k)
@@ -268,13 +311,6 @@ func c17(c *Ctx) {
 				continue
 			}
 			c.SawFunc(FuncName(mf))
-			okLimit := false
-			eachInstr(mf, func(in ssa.Instruction) {
-				if b, ok := in.(*ssa.BinOp); ok && (b.Op == token.GEQ || b.Op == token.GTR) && strings.HasSuffix(pathOf(b.Y), ".metricsPerBatch") {
-					okLimit = true
-				}
-			})
-			r.Check(rel+":maybeFlush:limit-test", okLimit, mf.Pos(), "the batch is emitted when it reaches metricsPerBatch")
 			var hand ssa.Instruction
 			for _, cl := range callsIn(mf) {
 				if strings.HasSuffix(calleeName(cl), ".cb") {
@@ -285,6 +321,10 @@ func c17(c *Ctx) {
 				r.Fail(rel+":maybeFlush:hands-over", mf.Pos(), "no call of the batch callback")
 				continue
 			}
+			// the hand-over happens exactly when <size expression> >= (or >) metricsPerBatch, in any spelling
+			okLimit := cmpHolds(factsAt(hand.Block()), func(ssa.Value) bool { return true },
+				func(v ssa.Value) bool { return strings.HasSuffix(pathOf(v), ".metricsPerBatch") }, token.GEQ, token.GTR)
+			r.Check(rel+":maybeFlush:limit-test", okLimit, mf.Pos(), "the batch is emitted when it reaches metricsPerBatch")
 			// f.ts replaced by a new timeSeries whose slice is freshly made
 			okFresh := false
 			for _, st := range fieldStores(mf, "flush", "ts") {
@@ -308,8 +348,7 @@ func c17(c *Ctx) {
 			okFin := false
 			for _, cl := range callsIn(fi) {
 				if strings.HasSuffix(calleeName(cl), ".cb") {
-					cs := strings.Join(condStrings(cl.Block()), " && ")
-					okFin = strings.Contains(cs, ">0)=true")
+					okFin = knownNonEmpty(factsAt(cl.Block()), func(v ssa.Value) bool { return strings.HasSuffix(pathOf(v), ".Metrics") || strings.HasSuffix(pathOf(v), ".Series") })
 				}
 			}
 			r.Check(rel+":finish:hands-over-remainder", okFin, fi.Pos(), "finish emits the open batch when it is not empty")
@@ -319,8 +358,10 @@ func c17(c *Ctx) {
 		if ins != nil {
 			ok := false
 			for _, st := range fieldStores(ins, "groups", "batches") {
-				cs := strings.Join(condStrings(st.Block()), " && ")
-				if strings.Contains(cs, "lenMetrics") && strings.Contains(cs, ".batchSize)=true") {
+				if cmpHolds(factsAt(st.Block()), func(v ssa.Value) bool {
+					cl, isCall := v.(*ssa.Call)
+					return isCall && staticCallee(cl) != nil && staticCallee(cl).Name() == "lenMetrics"
+				}, func(v ssa.Value) bool { return strings.HasSuffix(pathOf(v), ".batchSize") }, token.GEQ) {
 					ok = true
 				}
 			}
